@@ -151,41 +151,47 @@ for D in (2, 3):
     nonempty = ' && '.join('%s < %s' % (lo[k], hi[k]) for k in range(D))
     pos_a = ' + '.join('MUL(%s - %s, %s)' % (ii[k], fa[k], sub(na, k)) for k in range(D))
     pos_x = ' + '.join('MUL(%s, %s)' % (ii[k], sub(xs, k)) for k in range(D))
-    cell = lambda g: '%s.base_ + (%s)' % (g, ' + '.join('(MUL(%s, %s.%sstride_) - %s.%soffset_)' % (ii[k], g, 'sub_.'*k, g, 'sub_.'*k) for k in range(D)))
-    ext_is = lambda g: ' && '.join('%s.%snelems_ == MUL(%s - %s, %s.%sstride_) && %s.%soffset_ == MUL(%s, %s.%sstride_)' % (g, 'sub_.'*k, hi[k], lo[k], g, 'sub_.'*k, g, 'sub_.'*k, lo[k], g, 'sub_.'*k) for k in range(D))
+    cell = lambda g: '%s.base_ + (%s)' % (g, ' + '.join('MUL(%s - %s, %s.%sstride_)' % (ii[k], lo[k], g, 'sub_.'*k) for k in range(D)))    # p-th cell of the view, p = i - lo (independent of the view's own index base)
+    size_is = lambda g: ' && '.join('%s.%snelems_ == MUL(%s - %s, %s.%sstride_)' % (g, 'sub_.'*k, hi[k], lo[k], g, 'sub_.'*k) for k in range(D))
+    same_base_idx = ' && '.join('DIV(g_L.%soffset_, g_L.%sstride_) == DIV(g_R.%soffset_, g_R.%sstride_)' % (('sub_.'*k,)*4) for k in range(D))
     same_ext = ' && '.join('%s == %s && %s == %s' % (oe_first[k], '0', oe_last[k], xs[k]) for k in range(D))
     ASG = Stub(r'boost::multi::subarray<double, %dl, double\*, boost::multi::layout_t<%dl, long> >& boost::multi::subarray<double, %dl, double\*, boost::multi::layout_t<%dl, long> >::operator=<double, double\*, boost::multi::layout_t<%dl, long> >\(boost::multi::const_subarray<double, %dl, double\*, boost::multi::layout_t<%dl, long> >&&\) &&' % ((D,)*7),
                record=[('g_L', 0, MSUB(D)), ('g_R', 1, SUB(D))], count='g_as_calls', ret='g_as_ret', decl='int g_seq; int g_as_seq; int g_fill_seq;', ghosts=['g_seq', 'g_as_seq', 'g_fill_seq'], body='g_as_seq = ++g_seq;')
     FILL = Stub(r'double\* std::uninitialized_fill_n<double\*, unsigned long, double>\(.*', record=[('g_fl_dst', 0, None, 'ptr'), ('g_fl_n', 1, None), ('g_fl_v', 2, None, 'deref')], count='g_fl_calls', ret='g_fl_ret', body='g_fill_seq = ++g_seq;')
-    RAWD = Stub(r'double\* std::uninitialized_copy_n<double( const)?\*, (unsigned )?long, double\*>\(.*', count='g_raw_calls', ret='g_raw_ret', optional=True,
+    RAWD = Stub(r'double\* std::uninitialized_copy_n<double( const)?\*, (unsigned )?long, double\*>\(.*', count='g_rawu_calls', ret='g_raw_ret', optional=True,
+                record=[('g_raw_first', 0, None, 'ptr'), ('g_raw_n', 1, None), ('g_raw_dst', 2, None, 'ptr')], absent='double *g_raw_first; I64 g_raw_n; double *g_raw_dst;')
+    RAWC = Stub(r'double\* std::copy_n<double( const)?\*, (unsigned )?long, double\*>\(.*', count='g_rawc_calls', ret='g_rawc_ret', optional=True,
                 record=[('g_raw_first', 0, None, 'ptr'), ('g_raw_n', 1, None), ('g_raw_dst', 2, None, 'ptr')], absent='double *g_raw_first; I64 g_raw_n; double *g_raw_dst;')
     for fill, based in ((False, False), (True, False), (False, True), (True, True)):
         nm = 'O%d_reextent%s%s' % (D, '_fill' if fill else '', '_b' if based else '')
         ens = canonical_ens('self', D, xs, ['0']*D, lambda k: '%s == 0' % prod(xs[k:]), guard='EXC == 0 && !(%s)' % same_ext, what='the array') + [
             ('same extents: nothing happens (same storage, same layout, no allocation, no element traffic)',
-             'IMPLIES(EXC == 0 && %s, self->base_ == OLD(self->base_) && g_news == 0 && g_deletes == 0 && g_as_calls == 0 && g_raw_calls == 0%s)' % (same_ext, ' && g_fl_calls == 0' if fill else '')),
+             'IMPLIES(EXC == 0 && %s, self->base_ == OLD(self->base_) && g_news == 0 && g_deletes == 0 && g_as_calls == 0 && (g_rawu_calls + g_rawc_calls) == 0%s)' % (same_ext, ' && g_fl_calls == 0' if fill else '')),
             ('different extents: storage for exactly num_elements(x) elements is obtained once and becomes the base; the old storage is released exactly once',
              'IMPLIES(EXC == 0 && !(%s), %s && (%s == 0 ? g_deletes == 0 : (g_deletes == 1 && g_deleted == (void*)OLD(self->base_))))' % (same_ext, storage('self', Nx), Na)),
-            ('[delegation] different extents with a common part: it is transferred by exactly one view assignment', 'IMPLIES(EXC == 0 && !(%s) && %s, g_as_calls == 1 && g_raw_calls == 0)' % (same_ext, nonempty)),
-            ('no common part: no element traffic', 'IMPLIES(EXC == 0 && !(%s), g_as_calls == 0 && g_raw_calls == 0)' % nonempty),
-            ('the two views handed to the assignment both have exactly the extents of the intersection of the old and the new extents',
-             'IMPLIES(EXC == 0 && g_as_calls == 1 && %s, %s && %s)' % (nonempty, ext_is('g_L'), ext_is('g_R'))),
-            ('for every index tuple in both extents: the assigned cell is the canonical cell of that tuple in the NEW storage, the source cell is its cell in the OLD storage',
+            ('[delegation] different extents with a common part: it is transferred by exactly one view assignment', 'IMPLIES(EXC == 0 && !(%s) && %s, g_as_calls == 1 && (g_rawu_calls + g_rawc_calls) == 0)' % (same_ext, nonempty)),
+            ('no common part: no element traffic', 'IMPLIES(EXC == 0 && !(%s), g_as_calls == 0 && ((g_rawu_calls + g_rawc_calls) == 0 || g_raw_n == 0))' % nonempty),
+            ('the two views handed to the assignment both have exactly the sizes of the intersection of the old and the new extents',
+             'IMPLIES(EXC == 0 && g_as_calls == 1 && %s, %s && %s)' % (nonempty, size_is('g_L'), size_is('g_R'))),
+            ('the two views handed to the assignment have the same index bases (view assignment requires equal extensions: BOOST_MULTI_ASSERT in subarray::operator=)',
+             'IMPLIES(EXC == 0 && g_as_calls == 1 && %s, %s)' % (nonempty, same_base_idx)),
+            ('for every index tuple in both extents: the corresponding cell of the assigned view is the canonical cell of that tuple in the NEW storage, that of the source view is its cell in the OLD storage',
              'IMPLIES(EXC == 0 && g_as_calls == 1 && %s, %s == self->base_ + (%s) && %s == OLD(self->base_) + (%s))' % (in_both, cell('g_L'), pos_x, cell('g_R'), pos_a)),
             ('a flat prefix copy (instead of the view assignment) is only used when every index tuple in both extents has the same flat position in the old and the new storage and lies inside the copied prefix',
-             'IMPLIES(EXC == 0 && g_raw_calls >= 1 && %s, g_raw_calls == 1 && g_as_calls == 0 && g_raw_first == OLD(self->base_) && g_raw_dst == self->base_ && (%s) == (%s) && (%s) < g_raw_n)' % (in_both, pos_a, pos_x, pos_a))]
+             'IMPLIES(EXC == 0 && (g_rawu_calls + g_rawc_calls) >= 1 && %s, (g_rawu_calls + g_rawc_calls) == 1 && g_as_calls == 0 && g_raw_first == OLD(self->base_) && g_raw_dst == self->base_ && (%s) == (%s) && (%s) < g_raw_n)' % (in_both, pos_a, pos_x, pos_a)),
+            ('a flat prefix copy stays inside both the old and the new storage', 'IMPLIES(EXC == 0 && (g_rawu_calls + g_rawc_calls) >= 1, 0 <= g_raw_n && g_raw_n <= %s && g_raw_n <= %s)' % (Na, Nx))]
         if fill:
             in_new_not_old = ' && '.join('0 <= %s && %s < %s' % (ii[k], ii[k], xs[k]) for k in range(D)) + ' && !(%s)' % ' && '.join('%s <= %s && %s < %s' % (oe_first[k], ii[k], ii[k], oe_last[k]) for k in range(D))
             ens += [('with a fill value: whenever some index tuple of the new extents lies outside the old extents, the whole new storage is filled with exactly that value, before the common part is copied over it',
                      'IMPLIES(EXC == 0 && !(%s) && %s, g_fl_calls == 1 && g_fl_dst == self->base_ && g_fl_n == %s && g_fl_v == fv && (g_as_calls == 0 || g_fill_seq < g_as_seq))' % (same_ext, in_new_not_old, Nx))]
         Check(nm, ['C06', 'C19'] if based else ['C06'], 'own', fn='w_' + nm, params=['self'] + xs + (['fv'] if fill else []),
               wrapper=('void', 'AR<%d>* self, %s%s' % (D, ', '.join('long %s' % x for x in xs), ', double fv' if fill else ''), 'self->reextent({%s}%s);' % (', '.join(xs), ', fv' if fill else '')),
-              cxx={'self': ARR(D)}, ghosts=ghosts_fn(D) + [(I64, x) for x in ii], stubs=[NEW, DEL, ASG, RAWD] + ([FILL] if fill else []), mode='narrow:5',
+              cxx={'self': ARR(D)}, ghosts=ghosts_fn(D) + [(I64, x) for x in ii], stubs=[NEW, DEL, ASG, RAWD, RAWC] + ([FILL] if fill else []), mode='narrow:5',
               setup='g_seq = 0; g_as_seq = 0; g_fill_seq = 0;',
               requires=[' && '.join('0 <= %s && %s < 16 && -16 < %s && %s < 16 && 0 <= %s && %s < 16 && -32 < %s && %s < 32' % (n, n, f, f, x, x, i_, i_) for n, f, x, i_ in zip(na, fa, xs, ii)),
                         is_canonical('self', D, na, fa), '%s < 16 && %s < 16' % (Na, Nx), (' || '.join('%s != 0' % f for f in fa)) if based else (' && '.join('%s == 0' % f for f in fa)), 'g_block != 0 && self->base_ != 0 && PTR_SANE(self->base_) && PTR_SANE(g_block)'] + (['fv == fv'] if fill else []),
               ensures=ens,
               covers=['EXC == 0 && g_as_calls == 1 && x0 > g_n0 && g_n0 > 1 && x1 < g_n1 && x1 > 0'] + (['EXC == 0 && g_as_calls == 1 && g_f0 < 0'] if based else []) + [ 'EXC == 0 && %s == 0 && %s > 0' % (Na, Nx), 'EXC == 0 && %s == 0 && %s > 0' % (Nx, Na)],
-              tier='quick' if D == 2 else 'thorough',
+              tier='quick' if (D == 2 or not based) else 'thorough',
               assigns=['*self'], objbits=12, timeout=1200, unwind=4, cbmc_flags=['--no-pointer-check'],
               bounded='every operand of a multiplication or division |x| < 16 (extents, index bases, strides); arithmetic bit-precise within that bound')
